@@ -983,13 +983,32 @@ namespace bloch::runtime {
             rc->isAbstract = clsNode->isAbstract;
             m_classTable[rc->name] = rc;
         }
-        // populate members
+        // populate members, base classes first: a class copies its base's field layout and
+        // vtable, so the base must be complete whatever the declaration order in the source.
+        std::unordered_map<std::string, compiler::ClassDeclaration*> declByName;
         for (auto& clsNode : program.classes) {
+            if (clsNode && clsNode->typeParameters.empty())
+                declByName.emplace(clsNode->name, clsNode.get());
+        }
+        std::unordered_set<std::string> populated;
+        std::function<void(compiler::ClassDeclaration*)> populate =
+            [&](compiler::ClassDeclaration* clsNode) {
             if (!clsNode || !clsNode->typeParameters.empty())
-                continue;  // generic templates handled lazily
+                return;  // generic templates handled lazily
+            if (!populated.insert(clsNode->name).second)
+                return;
+            std::string declaredBase;
+            if (auto named = dynamic_cast<NamedType*>(clsNode->baseType.get())) {
+                if (named->typeArguments.empty() && !named->nameParts.empty())
+                    declaredBase = named->nameParts.back();
+            } else if (!clsNode->baseName.empty()) {
+                declaredBase = clsNode->baseName.back();
+            }
+            if (auto bit = declByName.find(declaredBase); bit != declByName.end())
+                populate(bit->second);
             RuntimeClass* rc = findClass(clsNode->name);
             if (!rc)
-                continue;
+                return;
             // Wire base (non-generic class)
             if (clsNode->baseType) {
                 if (auto named = dynamic_cast<NamedType*>(clsNode->baseType.get())) {
@@ -1079,7 +1098,8 @@ namespace bloch::runtime {
             }
             if (rc->staticStorage.size() < rc->staticFields.size())
                 rc->staticStorage.resize(rc->staticFields.size());
-        }
+        };
+        for (auto& clsNode : program.classes) populate(clsNode.get());
     }
 
     RuntimeClass* RuntimeEvaluator::instantiateGeneric(
